@@ -160,8 +160,16 @@ static Hist gen_hist(Rng &r, int force_emu = -1, double song_p = 0.35)
         size_t at = r.below((uint32_t)h.ops.size());
         HOp ld; ld.kind = 15; ld.a = ld.c = 0; ld.b = r.chance(0.5) ? 1 : 0;      // b: looping on (count 2) for this song
         std::vector<HOp> ins(1, ld);
-        for(int i = 0, n = r.range(1, 4); i < n; i++) { HOp pl; pl.kind = 16; pl.a = slow ? r.range(50, 200) : r.range(100, 900); pl.b = pl.c = 0; ins.push_back(pl); }
+        const bool spread = song_p >= 1.0;       // forced sequencer threads play in more, scattered blocks: the sequencers of several threads overlap
+        for(int i = 0, n = spread ? r.range(4, 8) : r.range(1, 4); i < n; i++) { HOp pl; pl.kind = 16; pl.a = slow ? r.range(50, 200) : r.range(100, 900); pl.b = pl.c = 0; if(!spread) ins.push_back(pl); else { size_t lo = at + 1 + (size_t)i; h.ops.insert(h.ops.begin() + (long)std::min(h.ops.size(), lo - 1 + r.below((uint32_t)(h.ops.size() - std::min(h.ops.size(), at) + 1))), pl); } }
         h.ops.insert(h.ops.begin() + (long)at, ins.begin(), ins.end());
+        if(spread)
+        {   // and they begin with the song and a stretch of tick-driven playback, so that the sequencers of the forced threads run at the same time
+            // right behind the start barrier (rendering audio floods the race detector's per-thread history)
+            HOp ld0 = ld; HOp tk; tk.kind = 19; tk.a = r.range(40, 160); tk.b = tk.c = 0;
+            HOp first[2] = {ld0, tk};
+            h.ops.insert(h.ops.begin(), first, first + 2);
+        }
     }
     return h;
 }
@@ -221,6 +229,7 @@ struct Runner
         case 12: opn2_setChipType(d, o.a); break;
         case 13: opn2_setSoftPanEnabled(d, o.a); break;
         case 14: opn2_setVolumeRangeModel(d, o.a); break;
+        case 19: { double dl = 0; int n = 0; for(; n < o.a; n++) { dl = opn2_tickEvents(d, dl > 0.02 ? 0.02 : dl, 1e-4); if(opn2_atEnd(d)) break; } out.pcm.push_back((int16_t)n); out.pcm.push_back((int16_t)opn2_atEnd(d)); break; }   // tick-driven playback: sequencer work without audio
         case 17: opn2_setAutoArpeggio(d, o.a); break;
         case 18: for(int j = 0; j < o.c; j++) opn2_rt_noteOn(d, (uint8_t)o.a, (uint8_t)(o.b + j), 100); break;
         case 15: { if(o.b) { opn2_setLoopEnabled(d, 1); opn2_setLoopCount(d, 2); } int rc = opn2_openData(d, h->song.data(), (unsigned long)h->song.size()); out.pcm.push_back((int16_t)(1000 + rc)); out.pcm.push_back((int16_t)opn2_trackCount(d)); break; }
@@ -368,6 +377,25 @@ static void run_case(Case &c)
     {
         int nthreads = r.range(2, 8);
         std::vector<Hist> hs; for(int i = 0; i < nthreads; i++) hs.push_back(gen_hist(r, -1, 0.7));   // most threads also run a sequencer
+        for(int i = 0; i < 2; i++) if(hs[(size_t)i].song.empty()) hs[(size_t)i] = gen_hist(r, -1, 1.0);     // at least two sequencers run side by side in every case
+        if(st == "tsan-light")
+        {   // no audio at all: real-time events, settings, loads and tick-driven playback only. Rendering floods ThreadSanitizer's per-thread
+            // access history (a race is reported only while the other access is still in it), so this stage is the sensitive one for
+            // everything outside the chip emulators: sequencer, synthesizer front end, bank map, error strings
+            for(int i = 0; i < nthreads; i++)
+            {
+                if(hs[(size_t)i].song.empty()) hs[(size_t)i] = gen_hist(r, -1, 1.0);
+                std::vector<HOp> &ops = hs[(size_t)i].ops, keep;
+                for(size_t j = 0; j < ops.size(); j++)
+                {
+                    if(ops[j].kind == 5) continue;
+                    if(ops[j].kind == 16) { HOp tk; tk.kind = 19; tk.a = 5 + ops[j].a / 40; tk.b = tk.c = 0; keep.push_back(tk); continue; }
+                    keep.push_back(ops[j]);
+                }
+                ops.swap(keep);
+            }
+            count("cases_without_audio");
+        }
         { int ns = 0; for(int i = 0; i < nthreads; i++) ns += hs[(size_t)i].song.empty() ? 0 : 1; count("threads_with_a_song_in_the_same_case", ns); }
         std::vector<Out> refs;
         bool compare = (g_w.variant != "tsan");
